@@ -299,6 +299,27 @@ fn generate(cli: &Cli) -> (Vec<Case>, Vec<String>) {
         }
     }
 
+    // F16: a silent client whose transport does not take the first byte of a Keep Alive at once (k = 0)
+    // or takes it in two parts, while a routing step completes in between and the next one outlasts
+    // the next tick: it is sent as many Keep Alives before the timeout Disconnect as the client whose
+    // transport takes everything at once
+    {
+        let spec = BaseSpec { name: "silent-client-slow-keep-alive", intent: Intent::Login, secret: true, lat: [17_000, 0, 40_000], extras: vec![], no_target: false, ci_delay_ms: 0 };
+        let mut base = build_base(&spec, cli.seed ^ 0xf16);
+        base.client.echo = Echo::Never;
+        let brun = run(&base);
+        let off: usize = brun.client.received.iter().take_while(|r| !matches!(r.pkt, Ok(Pkt::ConfKeepAliveOut { .. }))).map(|r| r.frame_len).sum();
+        if brun.client.first("ConfKeepAliveOut").is_some() {
+            for k in [0usize, 1, 5] {
+                let mut v = base.clone();
+                v.write_plan = WritePlan { steps: vec![], stalls: vec![(off + k, Duration::from_secs(2))] };
+                cases.push(Case { class: format!("race/discovery-completes-while-keep-alive-not-yet-taken@{k}/silent-client"), shape: "write/clientbound-only/keep-alive-count/discovery-completes-inside-frame/KeepAlive".into(), base: base.clone(), variant: v });
+            }
+        } else {
+            problems.push("silent-client-slow-keep-alive base: no Keep Alive in the baseline".into());
+        }
+    }
+
     // F11: frames whose announced length has zero low bits (128, 256, 16384: prefixes 80 01, 80 02,
     // 80 80 01) cut inside the length prefix: the first prefix byte(s) alone look like "length 0"
     for body in [128usize, 256, 384, 16_384] {
@@ -642,6 +663,12 @@ fn evaluate(cli: &Cli, report: &mut Report, cases: Vec<Case>) {
                 format!("clientbound-frame-broken/{}", c.shape),
                 "a frame sent to the client arrived incomplete, interleaved or undecodable".into(),
                 witness(&c.variant, &v, json!({"baseline_trace": tb, "segmentation": format!("{:?}", c.variant.client.seg), "read_plan": format!("{:?}", c.variant.read_plan), "write_plan": format!("{:?}", c.variant.write_plan)})),
+            ));
+        } else if c.shape.contains("/keep-alive-count/") && facts(&b).keep_alives.len() != facts(&v).keep_alives.len() {
+            findings.push((
+                format!("keep-alive-count-differs/{}", c.shape),
+                format!("a client that never answers was sent {} Keep Alive(s) before the connection ended when its transport took every byte at once, {} when it took the first Keep Alive late", facts(&b).keep_alives.len(), facts(&v).keep_alives.len()),
+                witness(&c.variant, &v, json!({"baseline_trace": tb, "variant_trace": tv, "write_plan": format!("{:?}", c.variant.write_plan)})),
             ));
         } else if let Some((what, detail)) = keep_alive_instants_differ(c, &b, &v) {
             findings.push((format!("keep-alive-instants-differ/{}", c.shape), what, witness(&c.variant, &v, detail)));
